@@ -8,6 +8,7 @@ EXTENDS Integers, Sequences, FiniteSets, TLC
 CONSTANTS Balls, Devs, Cap, Target, Shootable,   \* Shootable: devices a playfield ball can be shot into
           Escapable,   \* devices a resting ball can leave by itself (bounce out, get lost)
           Holding,     \* devices whose balls are held (ball_hold over the full capacity): ejected only on release
+          Sourcing,    \* holding devices on a path to the playfield: their held balls are available to serve requests
           EntranceCounted,   \* devices that count balls by an entrance switch (a ball can roll over it and bounce back)
           Saved,       \* TRUE: a game with an unlimited ball save is running - every drained ball is owed back to the playfield
              \* Cap[d] capacity, Target[d] where d ejects to ("pf" = playfield)
@@ -28,8 +29,8 @@ Budget == nops < MaxOps /\ nops' = nops + 1
 \* MPF fires the eject coil of d.  C04: never towards a device that has no room for the ball
 Coming(t) == Cardinality(To(t)) + Cardinality({d \in fired : Target[d] = t})
 RoomAt(t) == IF t = "pf" THEN TRUE ELSE Cap[t] - Cardinality(In(t)) - Coming(t) > 0
-\* ... and never a held ball that was not released
-Fire(d) == /\ d \notin fired /\ RoomAt(Target[d]) /\ (d \in Holding => rel[d] > 0)
+\* (whether a held ball may be ejected without a release is not something C04 / C05 speak about: not judged)
+Fire(d) == /\ d \notin fired /\ RoomAt(Target[d])
            /\ fired' = fired \cup {d} /\ act' = [op |-> "fire", d |-> d]
            /\ UNCHANGED <<loc, want, rel, nops>>
 \* physics: the fired device's ball leaves towards the target (and may fall back), or does not move at all
@@ -74,7 +75,7 @@ Next == \/ \E d \in Devs : Fire(d) \/ NoLeave(d) \/ \E b \in Balls, k \in {"ok",
 Spec == Init /\ [][Next]_vars
 \* ---- statements of C04 / C05 over observed MPF counts ------------------------------------------------------
 Quiet == fired = {} /\ \A b \in Balls : ~Transit(b)
-Avail == Cardinality(Balls) - Cardinality(UNION {In(d) : d \in Holding})      \* balls not held anywhere
+Avail == Cardinality(Balls) - Cardinality(UNION {In(d) : d \in Holding \ Sourcing})      \* balls not held out of reach
 Served == IF want <= Avail THEN want ELSE Avail
 \* at rest every requested ball is on the playfield (if there are that many balls) and nothing else is
 PfAtRest == Cardinality(In("pf"))
